@@ -12,6 +12,24 @@ HERE = os.path.dirname(os.path.dirname(os.path.abspath(__file__)))
 ALL = [f'C{i:02d}' for i in range(1, 21)]
 
 
+# which checks drive which part of the library (by workload, see DESIGN.md §3)
+RELATED = [
+    ('pjrpc/server/dispatcher.py', ['C01', 'C02', 'C03', 'C04', 'C10', 'C11', 'C12', 'C13', 'C15']),
+    ('pjrpc/server/utils.py', ['C04', 'C15', 'C16', 'C17']),
+    ('pjrpc/server/typedefs.py', ['C12']),
+    ('pjrpc/server/validators/', ['C03', 'C04', 'C14', 'C17', 'C13']),
+    ('pjrpc/server/specs/', ['C16', 'C17']),
+    ('pjrpc/server/integration/', ['C18', 'C12']),
+    ('pjrpc/common/', ['C01', 'C02', 'C03', 'C05', 'C06', 'C07', 'C08', 'C11']),
+    ('pjrpc/client/client.py', ['C07', 'C08', 'C09', 'C11', 'C19']),
+    ('pjrpc/client/retry.py', ['C09', 'C11', 'C19']),
+    ('pjrpc/client/tracer.py', ['C19', 'C11']),
+    ('pjrpc/client/integrations/pytest.py', ['C20']),
+    ('pjrpc/client/backend/', ['C07']),
+    ('pjrpc/__init__.py', ['C01', 'C05', 'C07']),
+]
+
+
 def one(seed, checks, tier):
     r = subprocess.run([os.path.join(HERE, 'tools', 'seedrun.py'), os.path.join(HERE, 'seeded', seed), '--checks', ','.join(checks),
                         '--tier', tier], capture_output=True, text=True)
@@ -28,6 +46,8 @@ def main():
     ap.add_argument('--checks', default='')
     ap.add_argument('--tier', default='quick')
     ap.add_argument('--own', action='store_true', help="only the check of the property each seed breaks")
+    ap.add_argument('--related', action='store_true',
+                    help="the own check plus the checks whose workloads exercise the files the change touches")
     a = ap.parse_args()
     seeds = sorted(d for d in os.listdir(os.path.join(HERE, 'seeded')) if os.path.isdir(os.path.join(HERE, 'seeded', d)))
     if a.only:
@@ -38,8 +58,17 @@ def main():
     def own_of(seed):
         return json.load(open(os.path.join(HERE, 'seeded', seed, 'meta.json')))['property']
 
+    def related_of(seed):
+        files = [l[6:].strip() for l in open(os.path.join(HERE, 'seeded', seed, 'patch.diff')) if l.startswith('+++ b/')]
+        out = {own_of(seed)}
+        for f in files:
+            for prefix, cs in RELATED:
+                if f.startswith(prefix):
+                    out.update(cs)
+        return sorted(out)
+
     with cf.ThreadPoolExecutor(a.jobs) as ex:
-        for seed, res in ex.map(lambda s: one(s, [own_of(s)] if a.own else checks, a.tier), seeds):
+        for seed, res in ex.map(lambda s: one(s, [own_of(s)] if a.own else (related_of(s) if a.related else checks), a.tier), seeds):
             prev = matrix.get(seed, {})
             if 'error' in res:
                 print(seed, 'ERROR', res['error'])
